@@ -416,7 +416,10 @@ def fam_conc():
     schemes = [call("NewPolicy"), AA(["href"], ["a"]), call("AllowURLSchemes", schemes=["http"]), call("AllowURLSchemesMatching", pat="^(ftp|tel)$")]
     handlers = [call("NewPolicy"), call("AllowElements", names=["span", "p"]), AS(["color"], "els", els=["span"], handler="h:verifharness/h.StyleHNoParen"),
                 AS(["color"], "els", els=["p"]), AS(["border", "font", "background"], "glob")]
-    recipes = [[call("UGCPolicy"), call("AllowComments")], pats, [call("StrictPolicy")], opts, schemes, handlers]
+    # style rules on two element patterns ONLY (no global, no element rule): whether an element is style-filtered then depends on
+    # the patterns alone, whatever order the map yields them in
+    pats2 = [c for c in pats if not (c["m"] == "AllowStyles" and c["scope"] == "glob")]
+    recipes = [[call("UGCPolicy"), call("AllowComments")], pats, [call("StrictPolicy")], opts, schemes, handlers, pats2]
     T = lambda d: tok("text", d=d)
     docs = [
         dict(toks=[tok("start", "iframe", (("sandbox", "allow-scripts allow-forms allow-scripts allow-popups allow-forms"),)), tok("end", "iframe"),
